@@ -268,6 +268,93 @@ m('c08-iter-panics-on-stop', ['C08'], 'store.go', """				if stop := cb(item.valu
 					return true
 				}""")
 
+# ---- z: C10 / C16
+m('c10-revert-leafmax-value', ['C10'], 'z/btree.go', """			n.setAt(valOffset(right), 0)
+""", "")
+m('c10-split-loses-a-key', ['C10'], 'z/btree.go', "	nn.setNumKeys(maxKeys - maxKeys/2)", "	nn.setNumKeys(maxKeys - maxKeys/2 - 1)")
+m('c10-moveright-one-short', ['C10'], 'z/btree.go', "	copy(n[keyOffset(lo+1):keyOffset(hi+1)], n[keyOffset(lo):keyOffset(hi)])", "	copy(n[keyOffset(lo+1):keyOffset(hi)], n[keyOffset(lo):keyOffset(hi-1)])")
+m('c10-compact-drops-maxkey', ['C10'], 'z/btree.go', """			if n.key(right) < mk {
+				// Skip over this key. Don't copy it.
+				continue
+			}""", """			if n.key(right) <= mk && right < N-1 || n.key(right) < mk {
+				// Skip over this key. Don't copy it.
+				continue
+			}""")
+m('c10-free-last-child', ['C10','C16'], 'z/btree.go', "		if rem := t.compact(child, ts); rem == 0 && i < N-1 {", "		if rem := t.compact(child, ts); rem == 0 && i < N {")
+m('c10-recycled-page-not-zeroed', ['C10','C16'], 'z/btree.go', """	zeroOut(n)
+	n.setBit(bit)""", """	if t.freePage == 0 && pageId == t.nextPage-1 {
+		zeroOut(n)
+	}
+	n.setBit(bit)""")
+m('c10-iterate-rewrite-wrong-slot', ['C10'], 'z/btree.go', "				n.setAt(valOffset(i), newVal)", "				n.setAt(valOffset(i+1)%len(n), newVal)")
+m('c16-reinit-frontier-from-2', ['C16'], 'z/btree.go', """	// Calculate t.nextPage by finding the first node whose pageID is not set.
+	t.nextPage = 1""", """	// Calculate t.nextPage by finding the first node whose pageID is not set.
+	t.nextPage = 2""")
+m('c16-reinit-last-free-head', ['C16'], 'z/btree.go', """			t.freePage = pageId
+			break""", """			t.freePage = pageId""")
+m('c16-reinit-no-free-count', ['C16'], 'z/btree.go', """			t.stats.NumPagesFree++
+		}
+	}
+
+	// Mark all pages being pointed to""", """		}
+	}
+
+	// Mark all pages being pointed to""")
+m('c16-newnode-link-read-late', ['C16','C10'], 'z/btree.go', """	if t.freePage > 0 {
+		t.freePage = n.uint64(0)
+	}
+	zeroOut(n)""", """	zeroOut(n)
+	if t.freePage > 0 {
+		t.freePage = n.uint64(0)
+	}""")
+m('c16-leafkeys-not-recounted', ['C16'], 'z/btree.go', """			if n.isLeaf() {
+				t.stats.NumLeafKeys += n.numKeys()
+			}
+		})""", """		})""")
+# ---- z: C11
+m('c11-grow-copy-short', ['C11'], 'z/buffer.go', """		newBuf := Calloc(b.curSz, b.tag)
+		assert(int(b.offset) == copy(newBuf, b.buf[:b.offset]))""", """		newBuf := Calloc(b.curSz, b.tag)
+		copy(newBuf, b.buf[:b.offset-1])""")
+m('c11-automap-copy-short', ['C11'], 'z/buffer.go', """			assert(int(b.offset) == copy(mmapFile.Data, b.buf[:b.offset]))""", """			copy(mmapFile.Data, b.buf[:b.offset/2])""")
+m('c11-maxsize-ge', ['C11'], 'z/buffer.go', "	if b.maxSz > 0 && int(b.offset)+n > b.maxSz {", "	if b.maxSz > 0 && int(b.offset)+n >= b.maxSz {")
+m('c11-maxsize-ignored-after-grow', ['C11'], 'z/buffer.go', "	if b.maxSz > 0 && int(b.offset)+n > b.maxSz {", "	if b.maxSz > 0 && b.curSz <= b.maxSz && int(b.offset)+n > b.maxSz {")
+m('c11-merge-drops-right-tail', ['C11'], 'z/buffer.go', """		if len(left) == 0 {
+			assert(len(right) == copy(s.b.buf[start:end], right))
+			return
+		}""", """		if len(left) == 0 {
+			return
+		}""")
+m('c11-merge-less-args-swapped', ['C11'], 'z/buffer.go', "		if s.less(ls[8:], rs[8:]) {", "		if s.less(rs[8:], ls[8:]) {")
+m('c11-sort-skips-last-chunk', ['C11'], 'z/buffer.go', """	left := offsets[0]
+	for _, off := range offsets[1:] {""", """	left := offsets[0]
+	for _, off := range offsets[1 : len(offsets)-1+len(offsets)%2] {""")
+m('c11-slice-next-off-by-one', ['C11'], 'z/buffer.go', """	if next >= int(b.offset) {
+		next = -1
+	}
+	return res, next""", """	if next+8 >= int(b.offset) {
+		next = -1
+	}
+	return res, next""")
+m('c11-reset-keeps-padding-wrong', ['C11'], 'z/buffer.go', "	b.offset = uint64(b.StartOffset())", "	b.offset = uint64(b.StartOffset()) + uint64(b.curSz&1)")
+# ---- z: C12
+m('c12-no-recheck-under-lock', ['C12'], 'z/allocator.go', """			if newBufIdx != bufIdx {
+				a.Unlock()
+				verifYield(verifSiteAllocUnlocked)
+				continue
+			}""", """			_ = newBufIdx""")
+m('c12-aligned-not-zeroed', ['C12'], 'z/allocator.go', "	ZeroOut(out, 0, len(out))", "	_ = out")
+m('c12-overshoot-check-off-by-one', ['C12'], 'z/allocator.go', "		if posIdx > len(buf) {", "		if posIdx > len(buf)+1 {")
+m('c12-publish-before-add', ['C12'], 'z/allocator.go', """			a.addBufferAt(bufIdx+1, sz)
+			atomic.StoreUint64(&a.compIdx, uint64((bufIdx+1)<<32))""", """			atomic.StoreUint64(&a.compIdx, uint64((bufIdx+1)<<32))
+			verifYield(verifSiteAllocAdded)
+			a.addBufferAt(bufIdx+1, sz)""")
+m('c12-slice-one-too-long', ['C12'], 'z/allocator.go', "		data := buf[posIdx-sz : posIdx]", "		data := buf[posIdx-sz : posIdx : posIdx+1]")
+m('c12-copy-short', ['C12'], 'z/allocator.go', """	out := a.Allocate(len(buf))
+	copy(out, buf)""", """	out := a.Allocate(len(buf))
+	copy(out, buf[:len(buf)-len(buf)/64])""")
+m('c12-revert-trim-first-chunk', ['C12'], 'z/allocator.go', "		if i == 0 || alloc < max {", "		if alloc < max {")
+m('c12-reset-keeps-chunk-index', ['C12'], 'z/allocator.go', "	atomic.StoreUint64(&a.compIdx, 0)", "	atomic.StoreUint64(&a.compIdx, atomic.LoadUint64(&a.compIdx)&^0xFFFFFFFF)")
+
 def run(cmd, **kw):
     return subprocess.run(cmd, shell=True, capture_output=True, text=True, **kw)
 
